@@ -169,8 +169,8 @@ func ReadMsgFromReq(req *http.Request) (*dns.Msg, error) {
 		return nil, fmt.Errorf("unsupported method: %s", req.Method)
 	}
 
-	m := new(dns.Msg)
-	if err := m.Unpack(b); err != nil {
+	m, err := unpackQuery(b)
+	if err != nil {
 		return nil, fmt.Errorf("failed to unpack msg [%x], %w", b, err)
 	}
 	return m, nil
